@@ -146,6 +146,9 @@ pub fn c14a_case(ex: &mut Expander, tape: &Vec<u32>, st: &mut Stats) -> Result<(
         }
         st.class("dense-msg-attrs");
     }
+    // two methods of one name that mark the payload differently (typed `Binary` / raw) are probed
+    // separately (recorded finding: the first declared marker decides the encoding)
+    unify_payload_markers(&mut p);
     let (q, moved) = twin(&p, &mut t);
     st.class(if reply { "family:reply" } else { "family:msg" });
     for m in &moved {
@@ -182,6 +185,70 @@ pub fn c14a_case(ex: &mut Expander, tape: &Vec<u32>, st: &mut Stats) -> Result<(
 }
 
 /// Legacy contracts (no `sv::features(replies)`) with two `#[sv::msg(reply)]` methods, in both orders.
+/// Give every reply handler name one payload declaration (the typed one of a mixed pair).
+fn unify_payload_markers(p: &mut Program) {
+    use svmodel::Payload;
+    let table = p.reply_table();
+    for row in table {
+        let names: Vec<String> = [row.ok.clone(), row.err.clone()].into_iter().flatten().collect();
+        let typed = p.contract.methods.iter().filter(|m| names.contains(&m.name)).find_map(|m| match &m.reply.as_ref()?.payload {
+            Payload::Typed(a) => Some(Payload::Typed(a.clone())),
+            Payload::Raw => None,
+        });
+        let has_raw = p.contract.methods.iter().filter(|m| names.contains(&m.name)).any(|m| matches!(m.reply.as_ref().map(|r| &r.payload), Some(Payload::Raw)));
+        if let (Some(typed), true) = (typed, has_raw) {
+            for m in p.contract.methods.iter_mut().filter(|m| names.contains(&m.name)) {
+                if let Some(r) = m.reply.as_mut() {
+                    r.payload = typed.clone();
+                }
+            }
+        }
+    }
+}
+
+/// Probe: a success and an error method of one name, one with a typed `Binary` payload, the
+/// other marking it `#[sv::payload(raw)]`, in both declaration orders.
+fn mixed_payload_markers(ex: &mut Expander, st: &mut Stats) -> Result<(), Bad> {
+    use svmodel::{Arg, DataMode, Method, Payload, ReplyOn, ReplySpec, RespTy, Role};
+    // base program from a fixed, non-degenerate tape
+    let base_tape: Vec<u32> = crate::draw_tapes(0x14d, 1, 600).remove(0);
+    let mut p = gen_reply_program("p_mix", base_tape, &GenOpts::default(), false);
+    let mk = |name: &str, on: ReplyOn, payload: Payload| Method {
+        name: name.into(),
+        role: Role::Handler(Kind::Reply),
+        args: vec![],
+        err: p.contract.error,
+        resp: RespTy::EchoA,
+        resp_explicit: false,
+        variant_attrs: vec![],
+        reply: Some(ReplySpec { handlers: vec!["vp_mixed".into()], on, data: DataMode::Absent, data_ty: Ty::U32, payload }),
+    };
+    let typed = Payload::Typed(vec![Arg { name: "blob".into(), ty: Ty::Binary, attrs: vec![] }]);
+    let a = mk("vp_mixed_ok", ReplyOn::Success, typed);
+    let b = mk("vp_mixed_err", ReplyOn::Error, Payload::Raw);
+    p.contract.methods.push(a);
+    p.contract.methods.push(b);
+    let mut q = p.clone();
+    let n = q.contract.methods.len();
+    q.contract.methods.swap(n - 1, n - 2);
+    st.class("mixed-payload-markers");
+    st.nontrivial(&"mixed-payload-markers");
+    let ea = expand_program(ex, &p)?;
+    let eb = expand_program(ex, &q)?;
+    if ea.contract.accepted() != eb.contract.accepted() {
+        return Err(viol("mixed-payload-markers:verdict", "the two declaration orders are not both accepted / both rejected", json!({"program": p})));
+    }
+    if !ea.contract.accepted() {
+        return Ok(());
+    }
+    let (ta, tb) = (clean_text(&ea.contract, "contract", &p)?, clean_text(&eb.contract, "contract", &q)?);
+    match compare("contract", ta, tb, &p, &q) {
+        Ok(()) => Ok(()),
+        Err(Bad::Violation { what, detail, .. }) => Err(Bad::Violation { key: "mixed-payload-markers:first-declared-wins".into(), what, detail }),
+        Err(e) => Err(e),
+    }
+}
+
 fn legacy_two_replies(ex: &mut Expander, st: &mut Stats) -> Result<(), Bad> {
     let mut p = gen_msg_program("p_leg", vec![0; 8], &GenOpts { legacy_reply: false, overrides: false, ..GenOpts::default() });
     for name in ["first_reply", "second_reply"] {
@@ -210,6 +277,8 @@ pub fn run(ctx: &Ctx, exe: &std::path::PathBuf, out: &mut Outcome) {
     // fixed probe
     let res = run_generated(ctx, exe, "legacy-two-replies", || proptest::strategy::Strategy::boxed(proptest::strategy::Just(vec![0u32])), 1, 1, |ex, _t: &Vec<u32>, st| legacy_two_replies(ex, st));
     to_outcome(ctx, "legacy-two-replies", res, out);
+    let res = run_generated(ctx, exe, "mixed-payload-markers", || proptest::strategy::Strategy::boxed(proptest::strategy::Just(vec![0u32])), 1, 1, |ex, _t: &Vec<u32>, st| mixed_payload_markers(ex, st));
+    to_outcome(ctx, "mixed-payload-markers", res, out);
 }
 
 /// The macro accepted the program, so its output has to be Rust: output that does not parse is
